@@ -21,6 +21,9 @@ def main():
         m = json.loads(mp.read_text())
         c = m.get("confirmed", {})
         chk = c.get("checks", {}).get(m["property"], {})
+        if m.get("excluded"):
+            rows.append(f"| {d.name} | {cell(m.get('summary'), 260)} | {cell(m.get('needs_to_manifest'), 220)} | not counted — {cell(m['excluded'], 300)} |")
+            continue
         tot += 1
         det += bool(c.get("detected"))
         inp += bool(c.get("detected_with_input"))
@@ -35,7 +38,7 @@ def main():
     out = ["# Seeded changes and the verdict of the registered check",
            "",
            "Written by `tools/seedtable.py` from `seeded/*/meta.json` (each written by `tools/seedtest.py`).  `-1`/`-2`: first wave; `-3`/`-4`: second wave",
-           "(authors told to avoid the ideas of the first).  Every change passes the 227 existing tests and was demonstrated by its author's script.",
+           "(authors told to avoid the ideas of the first); `-5`..`-12`: waves 3 to 6.  Every change passes the 227 existing tests and was demonstrated by its author's script.",
            "",
            f"**{tot} changes, {det} reported as VIOLATION, {inp} of them with a concrete failing input.**",
            "",
